@@ -7,6 +7,8 @@ import Aiortc.Lemmas.C13.SctpUtf8
 import Aiortc.Lemmas.C13.SctpNeg
 import Aiortc.Lemmas.C13.SctpOpen
 import Aiortc.Lemmas.C13.SctpReset
+import Aiortc.Lemmas.C13.SctpReact
+import Aiortc.Lemmas.C13.SctpFuel
 /-!
 # C13 — data channel lifecycle: faithful open, forward-only states, exact bufferedAmount
 
@@ -211,16 +213,68 @@ theorem buffered_send_flush : (∀ i isStr data, Pres bufSpec (handle (.send i i
     (∀ fuel, Pres bufSpec (flushLoop fuel)) ∧ Pres bufSpec flush :=
   ⟨buf_send, buf_flushLoop, buf_flush⟩
 
-/-- **`bufferedamountlow` fires exactly on downward crossings**: `_addBufferedAmount(amount)` adds the amount
-and emits the event iff the amount was above the threshold and is now at most the threshold (and the channel
-can have listeners). -/
+/-- a handler that re-enters `send()` (and `_data_channel_send` itself) is accounted exactly like a `send()`: the bytes are
+added to `bufferedAmount` and queued, so `BufInv` also holds after every step in which a handler sent -/
+theorem buffered_react : (∀ k i, Pres bufSpec (react k i)) ∧ (∀ i isStr data, Pres bufSpec (dcSend i isStr data)) :=
+  ⟨buf_react, buf_dcSend⟩
+
+/-- **`bufferedamountlow` fires exactly on downward crossings**: `_addBufferedAmount(amount)` - up to the application's
+handler, `addBufferedCore` - adds the amount and emits the event (and returns `true`) iff the amount was above the
+threshold and is now at most the threshold (and the channel can have listeners). -/
 theorem evLow_exact (i : Nat) (amount : Int) (s : St) (c : Chan) (hc : s.1.chans[i]? = some c) {Q}
-    (h : Q (.ok ())
+    (h : Q (.ok (decide ((c.buffered > c.threshold ∧ c.buffered + amount ≤ c.threshold) ∧ c.silent = false ∧ c.ready ≠ 3)))
       ({ s.1 with chans := s.1.chans.set i { c with buffered := c.buffered + amount } },
         s.2 ++ (if (c.buffered > c.threshold ∧ c.buffered + amount ≤ c.threshold) ∧ c.silent = false ∧ c.ready ≠ 3
                 then [Out.evLow i] else []))) :
-    WP (addBuffered i amount) Q s :=
-  wp_addBuffered i amount s c hc h
+    WP (addBufferedCore i amount) Q s :=
+  wp_addBufferedCore i amount s c hc h
+
+/-- `_addBufferedAmount` with the application's handler = the core followed by at most one reaction, which runs exactly
+when the event fired (the stored amount is the one computed BEFORE the handler runs; the handler's own `send()` then adds
+to the stored value) -/
+theorem addBuffered_core_react (i : Nat) (amount : Int) :
+    addBuffered i amount = (addBufferedCore i amount >>= fun fired => if fired then react 2 i else pure ()) := rfl
+
+/-! ## re-entrant application handlers -/
+
+/-- **A handler sends only on an open channel.** `react k i` does nothing without a matching armed reaction; otherwise it
+consumes the reaction and - iff channel `i` is open - continues with exactly `dcSend` (`_data_channel_send`); on a channel that
+is not open it only emits `.rexc i "InvalidStateError"` and changes nothing else. -/
+theorem react_sends_only_when_open (k i : Nat) (s : St) (Q : Except String Unit → St → Prop) :
+    WP (react k i) Q s ↔
+      match armed s.1 k i with
+      | none => Q (.ok ()) s
+      | some r =>
+        match s.1.chans[i]? with
+        | none => Q (.error "IndexError") ({ s.1 with reactions := s.1.reactions.erase r }, s.2)
+        | some c =>
+          if c.ready ≠ 1 then
+            Q (.ok ()) ({ s.1 with reactions := s.1.reactions.erase r }, s.2 ++ [.rexc i "InvalidStateError"])
+          else WP (dcSend i r.2.2.1 r.2.2.2) Q ({ s.1 with reactions := s.1.reactions.erase r }, s.2) :=
+  react_spec k i s Q
+
+example : armed { (Ep.init true 1 2) with reactions := [(3, 0, true, [104]), (4, 7, false, [])] } 4 0
+    = some (4, 7, false, []) := by decide
+
+/-- **Reactions are one-shot.** Every step leaves at most one more armed reaction than before, only the `.react` input (the
+application attaching a handler) adds one, and a handler that fires makes the list strictly shorter. -/
+theorem reactions_one_shot :
+    (∀ e now inp, (step e now inp).1.reactions.length ≤ e.reactions.length + 1) ∧
+    (∀ e now inp, (∀ k i isStr data, inp ≠ .react k i isStr data) →
+      (step e now inp).1.reactions.length ≤ e.reactions.length) ∧
+    (∀ k i (s : St), (armed s.1 k i).isSome →
+      WP (react k i) (fun _ s' => s'.1.reactions.length < s.1.reactions.length) s) :=
+  ⟨step_reactions, step_reactions_le, react_consumes⟩
+
+/-- **The fuel of `flush` suffices.** With `len(queue) + len(reactions) + 1` units of fuel (what `flush` passes) - or more -
+the loop returns normally only when its real exit condition holds (queue empty or outbound queue non-empty), never because the
+fuel ran out, although handlers running inside the loop append entries. -/
+theorem flush_fuel_suffices (fuel : Nat) (s : St) (h : s.1.dcQueue.length + s.1.reactions.length + 1 ≤ fuel) :
+    WP (flushLoop fuel) LoopDone s :=
+  flushLoop_fuel fuel s h
+
+example (s : St) : WP (flushLoop (s.1.dcQueue.length + s.1.reactions.length + 1)) LoopDone s :=
+  flush_fuel_suffices _ s (Nat.le_refl _)
 
 /-! ## (e) when the association ends every channel closes -/
 
